@@ -438,7 +438,52 @@ def gen_edits(rng, nflows):
     return out
 
 
+SURPLUS = [b"HTTP/1.1 200 OK\r\nContent-Length: 11\r\n\r\nUNSOLICITED", b"HTTP/1.1 200 OK\r\nContent-Length: 0\r\n\r\n",
+           b"HTTP/1.1 404 Not Found\r\nTransfer-Encoding: chunked\r\n\r\n3\r\nbad\r\n0\r\n\r\n", b"HTTP/1.1 304 Not Modified\r\n\r\n",
+           b"HTTP/1.1 200 OK\r\nContent-Le", b"HTTP/1.1 2", b"\r\n", b"garbage", b"\x00"]
+
+
+def gen_surplus_exchange(rng):
+    """keep-alive exchange in which the origin sends more than it was asked for: response k is followed, in the same
+    stream (delivered whole, or split exactly at the boundary), by surplus bytes — garbage, a complete unsolicited response,
+    the beginning of one — and 1-2 further requests go to the same host over the same client connection."""
+    mode = rng.weighted([(5, "regular"), (3, "reverse"), (2, "transparent")])
+    host = rng.pick([b"origin.example", b"origin.example:80"])
+    n = rng.randint(2, 3)
+    reqs, resps = [], []
+    for i in range(n):
+        if rng.chance(0.25):
+            reqs.append(gen_request(rng, mode))
+        else:
+            t = (b"http://" + host + b"/r%d" % i) if mode == "regular" else b"/r%d" % i
+            body = gen_body(rng) if rng.chance(0.3) else b""
+            reqs.append(rng.pick([b"GET", b"POST", b"HEAD"]) + b" " + t + b" HTTP/1.1\r\nHost: " + host + b"\r\n" +
+                        (b"Content-Length: %d\r\n" % len(body) if body else b"") + b"\r\n" + body)
+        if rng.chance(0.25):
+            resps.append(gen_response(rng))
+        else:
+            body = b"real%d" % i
+            resps.append(rng.pick([b"HTTP/1.1 200 OK\r\nContent-Length: %d\r\n\r\n" % len(body) + body,
+                                   b"HTTP/1.1 200 OK\r\nTransfer-Encoding: chunked\r\n\r\n%x\r\n" % len(body) + body + b"\r\n0\r\n\r\n",
+                                   b"HTTP/1.1 204 No Content\r\n\r\n", b"HTTP/1.1 304 Not Modified\r\nETag: x\r\n\r\n"]))
+    k = rng.randrange(n - 1)
+    clean_len = len(resps[k])
+    resps[k] = resps[k] + (rng.pick(SURPLUS) if rng.chance(0.8) else gen_response(rng))
+    case = {"mode": mode, "client_hex": hx(b"".join(reqs)),
+            "resps": [{"data_hex": hx(x), "close": False} for x in resps], "edits": []}
+    if rng.chance(0.4):
+        # split exactly at the boundary; the surplus still arrives before the next request is sent (the client's next
+        # request comes in a later segment, server segments first) — surplus that arrives after the next request has been
+        # forwarded is indistinguishable from its response for any proxy
+        case["scuts"] = [[clean_len] if i == k else [] for i in range(n)]
+        case["ccuts"] = [len(b"".join(reqs[:k + 1]))]
+        case["sched"] = []
+    return case
+
+
 def gen_exchange(rng):
+    if rng.chance(0.1):
+        return gen_surplus_exchange(rng)
     mode = rng.weighted([(5, "regular"), (3, "reverse"), (2, "transparent")])
     n = rng.weighted([(55, 1), (30, 2), (15, 3)])
     r = rng.random()
@@ -456,6 +501,22 @@ def gen_exchange(rng):
         if rng.chance(0.5):
             resps = [b"".join(rng.pick([b"HTTP/1.1 ", b"200 ", b"OK", b"\r\n", b"\n", b"Content-Length: ", b"2", b"hi", b"Transfer-Encoding: chunked",
                                         b"0", b":", b" "]) for _ in range(rng.randint(1, 12)))]
+    # surplus: bytes the origin sends right behind a complete response (same segment, or split at the boundary by a
+    # schedule) — garbage, a whole unsolicited response, or the beginning of one — while further requests follow
+    if r < 0.9 and rng.chance(0.15):
+        i = rng.randrange(len(resps))
+        resps[i] = resps[i] + rng.pick([
+            b"HTTP/1.1 200 OK\r\nContent-Length: 11\r\n\r\nUNSOLICITED",
+            b"HTTP/1.1 200 OK\r\nContent-Length: 0\r\n\r\n",
+            b"HTTP/1.1 404 Not Found\r\nTransfer-Encoding: chunked\r\n\r\n3\r\nbad\r\n0\r\n\r\n",
+            b"HTTP/1.1 200 OK\r\nContent-Le", b"HTTP/1.1 2", b"\r\n", b"garbage", b"\x00", gen_response(rng)])
+        if n == 1 or rng.chance(0.5):
+            host = rng.pick([b"origin.example", b"origin.example:80"])
+            for _ in range(rng.randint(1, 2)):
+                t = (b"http://" + host + b"/next") if mode == "regular" else b"/next"
+                reqs.append(b"GET " + t + b" HTTP/1.1\r\nHost: " + host + b"\r\n\r\n")
+                resps.append(gen_response(rng) if rng.chance(0.5) else b"HTTP/1.1 200 OK\r\nContent-Length: 4\r\n\r\nreal")
+            n = len(reqs)
     case = {"mode": mode, "client_hex": hx(b"".join(reqs)),
             "resps": [{"data_hex": hx(x), "close": rng.chance(0.25)} for x in resps],
             "edits": gen_edits(rng, n)}
